@@ -334,7 +334,6 @@ impl Decoder for DownlinkOperationDecoder {
                 let body = src.split_to(len).freeze();
                 Ok(Some(DownlinkOperation { body }))
             } else {
-                src.reserve(required);
                 Ok(None)
             }
         } else {
